@@ -41,7 +41,8 @@ class BranchTree(Tree):
 
         n_nodes = new_id.shape[0]
         ndata = {k: tree.get_ndata(k)[id_map].copy() for k in tree.keys()}
-        ndata.update(id=new_id, pid=new_pid)
+        ndata[tree.names.id] = new_id
+        ndata[tree.names.pid] = new_pid
 
         branch_tree = cls(n_nodes, **ndata, source=tree.source, names=tree.names)
 
